@@ -75,10 +75,10 @@ class C16Check:
     cid = "C16"
     level = "exploration"
     chunk = 20
-    rule = ("family 'server': a real TCP/Unix control server with 1-3 raw clients whose connects and handshakes interleave, each of which must then get help for sampled members; "
+    rule = ("family 'server': a real TCP/Unix control server with 1-3 raw clients whose connects and handshakes interleave, each of which must then get help for sampled members, over one to three serving periods of the same server object (stop, everybody leaves, serve_forever() again); "
             "family 'widths': cases = (pool class in {TaskPool, SimpleTaskPool, two subclasses adding a public method and properties}) x terminal width (80 plus widths sampled from 10..400 at which a "
             "plain argparse parser can format help); each case performs the JSON handshake on a real ControlSession, then asks '<command> -h' for EVERY public member enumerated by inspect, "
-            "the top-level '-h', and several non-public names; non-trivial = every member help was checked; distinct = distinct (class, width)")
+            "the top-level '-h', and several non-public names, and executes every read-only property and every static method as a command (reply compared with the direct access); subclasses also override inherited members and define static methods; non-trivial = every member help was checked; distinct = distinct (class, width)")
     assumptions = ["in-memory transport: real asyncio.StreamReader + recording writer at the ControlSession constructor boundary (socket transports are exercised by C19)",
                    "a terminal width is in the domain iff a plain argparse.ArgumentParser of that width can format help (calibrated per case)"]
 
@@ -190,9 +190,9 @@ class C17Check:
     level = "translation_validation"
     chunk = 60
     rule = ("programs = well-formed command lines generated from the pool classes' signatures (every public method and property of TaskPool / SimpleTaskPool, random subsets of "
-            "options in long or short spelling, values from each parameter's domain: ints, strings, flags, repeated positionals, Python-literal containers, dotted-path functions); "
+            "options in long or short spelling, values from each parameter's domain: ints, strings, flags, repeated positionals, Python-literal containers, dotted-path functions - also into lazily imported packages, with the number of already imported package levels as an input; pool subclasses that override inherited members and add static methods); "
             "each line is sent to a real ControlSession serving one pool while the equivalent direct call is made on an identically configured twin pool; reply text, public state "
-            "and the multiset of worker/callback invocations are compared after every command; non-trivial = >= 3 commands compared; distinct = distinct session seed")
+            "and the multiset of worker/callback invocations are compared after every command; in part of the sessions a second client sends help requests / ill-formed lines, and a second served pool of the same class (decoy) is sent the same lines first; non-trivial = >= 3 commands compared; distinct = distinct session seed")
     assumptions = ["the twin pool driven by direct Python calls is the reference semantics",
                    "command lines are well formed: single spaces between tokens, no spaces inside values",
                    "in-memory transport at the ControlSession constructor boundary"]
@@ -244,7 +244,8 @@ class C19Check:
     chunk = 4
     rule = ("random lifecycles of a real TCPControlServer / UnixControlServer: 0-4 raw stream clients (connect, probe and mutating commands, parking in until-closed, disconnect by "
             "close / half-close / abort) and in ~20% of the cases the bundled CLI client as a subprocess (commands on stdin, 'exit' or stdin EOF), with the cancellation of the serving "
-            "task placed anywhere in the merged action order; verdicts at socket quiescence (consecutive idle 1 ms ticks, empty selector); non-trivial = at least one client connected "
+            "task placed anywhere in the merged action order; in ~35% of the cases the same server object serves two or three periods (serve_forever() again after the stop), clients of an "
+            "earlier period may still be connected and leave while the server serves again, is_serving() is checked before every action; verdicts at socket quiescence (consecutive idle 1 ms ticks, empty selector); non-trivial = at least one client connected "
             "and the server was stopped; distinct = distinct merged action order")
     assumptions = ["loopback TCP and Unix sockets of this kernel; CPython 3.12.1 Server.wait_closed semantics",
                    "a 60 s wall-clock watchdog only ever yields INCONCLUSIVE, never a violation",
